@@ -229,6 +229,15 @@ def check_property(pid, tier, seed):
             gs0 = groups_of(f)
             if (gs0 is None or "*" in gs0) and (f.get("kind") or "").startswith("postcondition not satisfied") and (f.get("part") or "").startswith("ensures"):
                 broken_step.add(f.get("item"))
+        # functions whose text differs from the unchanged tree AND in which a new implicit obligation (an index, machine arithmetic, the
+        # precondition of a call) is not discharged: Verus reports it and goes on as if it held, so what it says about the rest of that
+        # function is about a program whose meaning it does not vouch for
+        tainted = set()
+        for f in failures:
+            si = f.get("at_item") or f.get("item")
+            sp = f.get("at_part") or f.get("part") or ""
+            if sp == "body" and si in changed_items and not f.get("label"):
+                tainted.add(si)
         for f in failures:
             name, kind = obligation_name(f)
             f["obligation"] = name
@@ -265,6 +274,14 @@ def check_property(pid, tier, seed):
                 # differs from the unchanged tree: it is a NEW obligation of the changed code, not one that held before and now
                 # fails; without the invariants that code would need, its failure says nothing -> undecided, the stand-in decides
                 undecided.append("%s: new implicit obligation in the changed function %s is not discharged (%s): %s" % (tag, site_item, kind, name))
+                continue
+            if (part.startswith("hint") and "." not in (f.get("label") or "") and (f.get("item") in changed_items)):
+                # an unlabelled hint is proof script written for the intermediate states of the ORIGINAL body (the labelled ones state a
+                # property); when the body is different text its failure says the script no longer fits, not that the property fails
+                undecided.append("%s: proof hint no longer fits the changed function %s (%s): %s" % (tag, f.get("item"), kind, name))
+                continue
+            if f.get("item") in tainted and part != "body":
+                undecided.append("%s: %s fails in the changed function %s, which also has an undischarged new implicit obligation: not evidence (%s)" % (tag, name, f.get("item"), kind))
                 continue
             if f["attrib"] == "shared" and spec.get("owns_shared") == "safety":
                 # owns only panic-freedom: preconditions (of panic primitives, pushes, callees) and machine arithmetic
